@@ -237,6 +237,42 @@ End Native.
 Arguments RawPriv {sk pk} s.
 Arguments RawPub {sk pk} p.
 
+(* ---------- histories of operations on one key object ---------- *)
+(* The only state of a key that the exporting methods touch is _dict_value, and the
+   only writer is ensure_kid (as_dict works on a copy, thumbprint reads). *)
+Inductive kop :=
+| OAsDict (private : pv) (params : kd)     (* key.as_dict(private, **params) *)
+| OEnsureKid                                (* key.ensure_kid() *)
+| OThumbprint.                              (* key.thumbprint() *)
+
+Inductive kout := RDict (r : res kd) | RUnit (r : res unit) | RStr (r : res str).
+
+Section History.
+  Variable H : kd -> str.
+  Variable reg : list kparam.
+  Variable is_priv : bool.
+
+  Definition step (d : kd) (o : kop) : kd * kout :=
+    match o with
+    | OAsDict private params => (d, RDict (as_dict reg is_priv d private params))
+    | OEnsureKid =>
+        match ensure_kid H reg d with
+        | Ok d' => (d', RUnit (Ok tt))
+        | Err e => (d, RUnit (Err e))
+        end
+    | OThumbprint => (d, RStr (thumbprint H reg d))
+    end.
+
+  Fixpoint run_history (d : kd) (ops : list kop) : kd * list kout :=
+    match ops with
+    | [] => (d, [])
+    | o :: r =>
+        let '(d1, out) := step d o in
+        let '(d2, outs) := run_history d1 r in
+        (d2, out :: outs)
+    end.
+End History.
+
 (* ---------- key generation: the plumbing of the `private` flag ---------- *)
 (* <KeyClass>.generate_key(size_or_crv, parameters, private, auto_kid):
      raw_key = <native generate>
